@@ -135,6 +135,17 @@ def systematic():
                                 "steps": [{"at": 10, "do": "rx", "r": 1, "ty": ty, "code": method, "mid": 77, "tok": "ab", "path": ["h", "1"]}],
                                 "triggers": [{"on": {"tx": {"ty": "CON", "cls": "resp", "nth": 1}}, "delay": 2, "rx": {"ty": "ACK", "code": 0, "mid": "same"}}],
                                 "horizon": 4000})
+    # every outcome once more as the *second* separate response to one peer, produced while the first one is
+    # still awaiting its (late) acknowledgement: the response is held back by NSTART=1 and goes out later
+    for oc in OUTCOMES:
+        out.append({"tuning": {"EMPTY_ACK_DELAY": 0.125}, "mid0": 7, "tok0": 3, "nremotes": 1,
+                    "handlers": {"1": {"delay": 300, "outcome": "ok", "len": 8}, "2": {"delay": 600, "outcome": oc, "len": 8}},
+                    "steps": [{"at": 10, "do": "rx", "r": 1, "ty": "CON", "code": 1, "mid": 77, "tok": "ab", "path": ["h", "1"]},
+                              {"at": 20, "do": "rx", "r": 1, "ty": "CON", "code": 1, "mid": 78, "tok": "ac", "path": ["h", "2"]}],
+                    "triggers": [{"on": {"tx": {"ty": "CON", "cls": "resp", "nth": 1}}, "delay": 2600, "rx": {"ty": "ACK", "code": 0, "mid": "same"}},
+                                 {"on": {"tx": {"ty": "CON", "cls": "resp", "nth": 2}}, "delay": 2, "rx": {"ty": "ACK", "code": 0, "mid": "same"}},
+                                 {"on": {"tx": {"ty": "CON", "cls": "resp", "nth": 3}}, "delay": 2, "rx": {"ty": "ACK", "code": 0, "mid": "same"}}],
+                    "horizon": 12000})
     return out
 
 
